@@ -46,7 +46,7 @@ def render_value(ev, v, cz):
     if ev == 'f64': return cz.f64_bits(v)
     if ev == 'number':
         if v[0] == 'sadt':
-            d = cz.int(v[2]); name = ['Float', 'Integer'][d]
+            d = cz.int(v[2]); name = sem.NUMBER_VARIANTS[d]
             v = adt(v[1], name, v[3][name])
         if v[2] == 'Integer': return 'I' + str(cz.int(v[3][0]))
         return 'F' + cz.f64_bits(v[3][0])
@@ -175,6 +175,8 @@ class EvalArm(Obligation):
 
     def run(self, ctx):
         prog = ctx.prog(self.oc)
+        nk = prog.enum_key('number::Number')
+        if nk: sem.set_number_variants(prog.enums[nk])
         e = eng_mod.Engine(prog, step_limit=self.limits.get('steps', 20000), timeout_ms=self.limits.get('timeout_ms', 30000), seed=ctx.seed)
         st = eng_mod.State()
         profile = 'dev' if self.oc else 'release'
@@ -192,15 +194,56 @@ class EvalArm(Obligation):
             if out[0] == 'err': return 'ERR'
             return 'OK ' + render_value(self.ev, out[1], cz)
 
-        def confirm(out, refcase, what, extra_conds):
-            """find a model of PC /\\ extra_conds whose native run shows the violation; up to 6 alternatives"""
-            blocked = []
-            for attempt in range(6):
-                r = e.check(*(extra_conds + blocked))
-                if r != z3.sat:
-                    return None if attempt else 'nomodel'
+        def uf_apps(terms):
+            """all applications of uninterpreted functions (arity > 0) in the given terms"""
+            seen = set(); out = []
+            stack = [t for t in terms if is_sym(t)]
+            while stack:
+                t = stack.pop()
+                if t.get_id() in seen: continue
+                seen.add(t.get_id())
+                if z3.is_app(t):
+                    if t.decl().kind() == z3.Z3_OP_UNINTERPRETED and t.num_args() > 0 and t.decl().name().startswith(('uf_', 'R64', 'wrapped_pow', 'cx_')): out.append(t)
+                    stack.extend(t.children())
+            return out
+
+        def concrete_model(extra_conds, tries=8):
+            """a model of PC /\ extra whose path condition also holds with the *real* library functions.
+            Uninterpreted functions make the solver's model only a candidate: each application is recomputed natively and
+            asserted as a lemma (args = these values -> result = real value) until the model agrees with reality."""
+            lemmas = []
+            pcs = e.path_condition() + list(extra_conds)
+            apps = uf_apps(pcs)
+            for attempt in range(tries):
+                r = e.check(*(list(extra_conds) + lemmas))
+                if r != z3.sat: return None
                 m = e.solver.model()
                 cz = Concretizer(m, runner)
+                if not apps: return m, cz
+                okc = True
+                try:
+                    for c in pcs:
+                        if not cz.bool(c): okc = False; break
+                except Unsupported:
+                    okc = True      # abstract sorts (decimal): cannot be recomputed, accept the solver's model
+                if okc: return m, cz
+                for app in apps:
+                    try:
+                        argv = [cz.ev(x) for x in app.children()]
+                        real = cz.apply_uf(app.decl().name(), argv, app)
+                        lemmas.append(z3.Implies(z3.And([x == v for x, v in zip(app.children(), argv)]), app == real))
+                    except Exception:
+                        pass
+            return None
+
+        def confirm(out, refcase, what, extra_conds):
+            """find a model of PC /\ extra_conds whose native run shows the violation; up to 6 alternatives"""
+            blocked = []
+            for attempt in range(6):
+                cm = concrete_model(list(extra_conds) + blocked)
+                if cm is None:
+                    return None if attempt else 'nomodel'
+                m, cz = cm
                 try:
                     sx, stt, payload, us = native_of(cz)
                     pred = predicted_of(out, cz)
@@ -274,7 +317,11 @@ class EvalArm(Obligation):
             # validation replay of the path itself
             if not viol_here and res['replayed'] < self.replay_cap and p.kind != 'limit':
                 try:
-                    m = e.model(); cz = Concretizer(m, runner)
+                    cm = concrete_model([])
+                    if cm is None:
+                        res['spurious'] = res.get('spurious', 0) + 1      # feasible only under the abstraction of a library function
+                        return
+                    m, cz = cm
                     sx, stt, payload, us = native_of(cz)
                     pred = predicted_of(out, cz)
                     nat = stt if stt in ('PANIC', 'ERR', 'TIMEOUT') else stt + ' ' + payload
